@@ -264,7 +264,7 @@ def _gen_dur_strings(con, sigcase, count, seed):
 contract(
     "odfdo.datatype:Duration.decode",
     sig=dict(data=Str),
-    raises={ValueError: lambda a: not _in_dur_form(a.data)},
+    raises={ValueError: lambda a: not _in_dur_form(a.data)}, raises_props={"C18"},
     ensures=[Clause("value", P18 | {"C06"}, lambda a, r, p: r == _dur_value(a.data),
                     when=lambda a: _in_dur_form(a.data))],
     gen=_gen_dur_strings,
